@@ -76,6 +76,18 @@ def _mk(cls, text, mem, plat):
     return c(text, platform=plat, items=list(mem))
 
 
+def _mk_after_group(job, side):
+    """a member object; with job['was_group'] naming this side it first referenced another group (with that group's members
+    loaded) and was then given its present text through the line setter - what it was before must not matter"""
+    text = job["btext"] if side == "b" else job["ttext"]
+    if side in (job.get("was_group") or "") and job["plat"] == "ios":
+        from cisco_acl import AddressAg
+        o = AddressAg("group-object OLD", platform="ios", items=list(job["old_members"]))
+        o.line = text
+        return o
+    return _mk("AddressAg", text, None, job["plat"])
+
+
 def exec_job(job):
     e = dict(tid=job["tid"], i=0, act=job["act"], cls=job.get("cls", "AddressAg"), plat=job["plat"],
              btoks=lex.lex(job["btext"]), bmem=[lex.lex(t) for t in (job.get("bmem") or [])],
@@ -86,11 +98,11 @@ def exec_job(job):
             b = _mk(job["cls"], job["btext"], job.get("bmem"), job["plat"])
             t = _mk(job["cls"], job["ttext"], job.get("tmem"), job["plat"])
         elif job["act"] == "In":
-            b = _mk("AddressAg", job["btext"], None, job["plat"])
-            t = _mk("AddressAg", job["ttext"], None, job["plat"])
+            b = _mk_after_group(job, "b")
+            t = _mk_after_group(job, "t")
         else:
             from cisco_acl import AddrGroup
-            b = _mk("AddressAg", job["btext"], None, job["plat"])
+            b = _mk_after_group(job, "b")
             t = AddrGroup(name="G", platform=job["plat"], items=list(job["tmem"]))
     except Exception as ex:  # noqa
         e["act"], e["exc"] = "Build", core.exc_name(ex)
@@ -337,6 +349,10 @@ def run(tier, seed):
     jobs = from_pairs(rng, pairs, tier, 1)
     jobs += random_jobs(rng, 10000 if tier == "quick" else 60000, len(jobs) + 1)
     jobs += pieces_jobs(rng, 600 if tier == "quick" else 20000, len(jobs) + 1)
+    for j in jobs:     # some members were references to another group before they got their present text
+        if j["act"] in ("In", "InGroup") and j["plat"] == "ios" and rng.random() < 0.3:
+            j["was_group"] = rng.choice(["b", "t", "bt"]) if j["act"] == "In" else "b"
+            j["old_members"] = rng.choice([["host 10.1.1.1"], ["10.0.0.0 255.0.0.0", "host 192.168.1.1"], ["0.0.0.0 128.0.0.0", "128.0.0.0 128.0.0.0"]])
     jobs = core.cap(jobs, 40000 if tier == "quick" else 400000, rng)
     ev_lists = core.pmap(exec_job, jobs)
     events = [e for evs in ev_lists for e in evs]
